@@ -64,7 +64,19 @@ func strConverter(dec *Decoder, o interface{}, p interface{}) {
 	case fmt.GoStringer:
 		*(*string)(reflect2.PtrOf(p)) = o.GoString()
 	default:
-		*(*string)(reflect2.PtrOf(p)) = fmt.Sprint(o)
+		switch reflect.TypeOf(o).Kind() {
+		case reflect.Ptr, reflect.Map, reflect.Slice, reflect.Array, reflect.Struct, reflect.Interface:
+			// a container has no text form: it may refer to itself (a stream can say so
+			// in a few bytes), and printing it would recurse until the stack overflows
+			if dec.Error == nil {
+				dec.Error = CastError{
+					Source:      reflect.TypeOf(o),
+					Destination: reflect.TypeOf(p).Elem(),
+				}
+			}
+		default:
+			*(*string)(reflect2.PtrOf(p)) = fmt.Sprint(o)
+		}
 	}
 }
 
